@@ -1056,7 +1056,9 @@ def gen_law_case(rnd, i):
     model = LAW_MODELS[i % len(LAW_MODELS)]
     nb = 2 if model in ("AlternatingCrossover", "CambridgeSampler", "slate_BradleyTerry") else None
     big = model in ("name_PlackettLuce", "short_name_PlackettLuce", "name_Cumulative", "slate_PlackettLuce") and rnd.random() < 0.05
-    p = bp.gen_params(rnd, nblocs=nb, max_slate=8 if big else 3)
+    if model == "slate_PlackettLuce" and not big and rnd.random() < 0.2:
+        nb = rnd.choice([4, 4, 5])  # four / five slates: a second slate can be used up while two are still open
+    p = bp.gen_params(rnd, nblocs=nb, max_slate=8 if big else (3 if (nb or 0) < 4 else 2))
     case = {"kind": "law", "model": model, "params": p, "N": rnd.choice([1, 3, 6, 9] if not big else [12, 40]), "seed": rnd.randrange(10 ** 6)}
     n = len(bp.all_cands(p))
     if model == "short_name_PlackettLuce":
@@ -1084,9 +1086,12 @@ def run(ctx):
             break
         ctx.guard("law", check_law, ctx, gen_law_case(rnd, i + ctx.shard))
         if i % 8 == 0:
-            k = rnd.choice([1, 2, 2, 3])
-            names = ["W", "C", "X"][:k]
-            sizes = {s: rnd.randint(1, 3 if k < 3 else 2) for s in names}
+            # four and five slates too: the renormalisation after the SECOND used-up slate only shows there
+            k = rnd.choice([1, 2, 2, 3, 3, 4, 4, 5])
+            names = ["W", "C", "X", "Y", "Z"][:k]
+            sizes = {s: rnd.randint(1, 3 if k < 3 else 2) if k < 4 else 1 for s in names}
+            if k == 4 and rnd.random() < 0.4:
+                sizes[rnd.choice(names)] = 2
             cohv = bp.split_unit(rnd, k)
             ctx.guard("types", check_slate_types, ctx, {"kind": "types", "sizes": sizes, "cohesion": dict(zip(names, cohv))})
         if i % 8 == 1:
